@@ -228,8 +228,15 @@ def _show(v):
 
 def _classify(case, detail):
     name = _strip(case[0])
-    if name == 'NPV' and 'foreign value' in detail and 'nan' in detail:
-        return 'KF-C11-1'
+    if name == 'NPV' and 'foreign value' in detail and ('nan' in detail or 'inf' in detail):
+        args = [_materialise(s) for s in case[1]]
+        if args and not isinstance(args[0], bool) and isinstance(args[0], (int, float)) and args[0] == -1:
+            return 'KF-C11-1'
+    if name in ('VLOOKUP', 'HLOOKUP') and 'lost the error' in detail and len(case[1]) == 4:
+        from formulas.tokens.operand import XlError
+        args = [_materialise(s) for s in case[1]]
+        if isinstance(args[3], XlError) and not any(isinstance(a, XlError) for a in args[:3]):
+            return 'KF-C11-2'
     return None
 
 
